@@ -29,13 +29,9 @@ if [ -f $SRC/demo_test.go ]; then
   rm -f $WT/zz_seed_demo_test.go
 fi
 echo "confirm: build=$BUILD tests=$TESTS demo_with_change=$DEMO_WITH demo_without_change=$DEMO_WITHOUT"
-# run the check against /repo with the change applied
-cd /repo
-if [ -n "$(git status --short)" ]; then echo "/repo not clean"; exit 2; fi
-git apply /tmp/seed-$ID-applied.diff || { echo "RESULT $ID cannot-apply-to-repo"; exit 3; }
+# run the check against a patched scratch copy of /repo (overlay): /repo itself is not touched
 cd /verif
-OUT=$(bin/vcheck run $PROP --tier $TIER 2>&1); RC=$?
-git -C /repo checkout -- . 
+OUT=$(bin/vcheck run $PROP --tier $TIER --patch /tmp/seed-$ID-applied.diff 2>&1); RC=$?
 CLASSES=$(echo "$OUT" | grep "class:" | sed 's/ *class: //; s/ (cases.*//' | sort -u | head -8 | paste -sd';')
 echo "$OUT" | tail -1
 echo "RESULT $ID prop=$PROP tier=$TIER exit=$RC classes=$CLASSES"
@@ -51,7 +47,7 @@ m={}
 if os.path.exists(p): m=json.load(open(p))
 m.update({"id":id,"breaks_property":prop,"confirmed":{"builds":build,"repo_tests_pass_with_change":tests,"demo_with_change":dw,"demo_without_change":dwo},
  "what_i_ran":[f"git worktree add; git apply patch.diff; go build ./... && go build -tags verif ./... && go vet .; go test -vet=off -count=1 ./... (x2); demo test with and without the change",
-   f"git -C /repo apply patch.diff; bin/vcheck run {prop} --tier {tier}; git -C /repo checkout -- ."]})
+   f"bin/vcheck run {prop} --tier {tier} --patch seeded/{id}/patch.diff (applies the patch to a scratch copy of /repo substituted through go build -overlay); the first runs of this seed applied it with git -C /repo apply ... ; git -C /repo checkout -- ."]})
 m.setdefault("runs",[]).append({"check":prop,"tier":tier,"exit":int(rc),"detected":int(rc)==1,"classes":classes.split(';') if classes else []})
 json.dump(m,open(p,'w'),indent=1)
 PY
